@@ -55,7 +55,7 @@ REAL_COMPONENTS = ["every persim public entry point (working tree)", "matplotlib
 STUB_COMPONENTS = []
 ENV = ("none", "none", "none", "pyplot-new-figure", "pyplot-switch", "warn-filter", "rng-consume", "rng-reseed")
 FILTERS = ("default", "always", "once", "ignore")
-REPS = ("f64", "f64", "list", "i64", "ilist", "f32")
+REPS = ("f64", "f64", "list", "i64", "ilist", "f32", "u8")
 
 
 def reset_world():
@@ -110,7 +110,7 @@ def gen_spec(rng, fx, k, counters):
     elif kind == "gromov_hausdorff":
         coll = rng.random() < 0.3
         n = 3 if coll else 2
-        s.update(gs=[rng.randrange(3) for _ in range(n)], fmts=[rng.choice(("csr", "dense", "list")) for _ in range(n)],
+        s.update(gs=[rng.randrange(3) for _ in range(n)], fmts=[rng.choice(("csr", "csr0", "dense", "list")) for _ in range(n)],
                  seed=rng.randrange(1000), collection=coll)
     elif kind == "kernel":
         w = rng.choice(("gaussian", "gaussian", "uniform", "norm_cdf"))
@@ -200,9 +200,9 @@ def gen_case(rng, tier):
             alt = copy.deepcopy(spec["rep"])
             for key in alt:
                 if isinstance(alt[key], list):
-                    alt[key] = [rng.choice(("f64", "i64", "list", "ilist")) for _ in alt[key]]
+                    alt[key] = [rng.choice(("f64", "i64", "list", "ilist", "u8")) for _ in alt[key]]
                 else:
-                    alt[key] = rng.choice(("f64", "i64", "list", "ilist"))
+                    alt[key] = rng.choice(("f64", "i64", "list", "ilist", "u8"))
             op["alt_rep"] = alt
         ops.append(op)
     return {"inputs": {"fixtures": fx, "clients": K}, "ops": ops,
@@ -396,7 +396,7 @@ def run_case(case, sched):
             if spec["fn"] == "persistent_entropy" and alt:
                 # documented input: ndarray or *list of* ndarrays; a nested list is taken for a list of
                 # diagrams and only slips through by accident -> representation independence among arrays only
-                alt = {k_: [x if x in ("f64", "i64") else "f64" for x in v] for k_, v in alt.items()}
+                alt = {k_: [x if x in ("f64", "i64", "u8") else "f64" for x in v] for k_, v in alt.items()}
                 if any(x == "list" for x in (spec.get("rep") or {}).get("ds", [])):
                     alt = None
             if alt and out[0] == "ok" and spec["fn"] != "obj":
@@ -407,7 +407,10 @@ def run_case(case, sched):
                     out2 = execute(sp2, "alternative representation")
                     if out2[0] == "ok":
                         stats["alt_rep_compared"] += 1
-                        where = api.same(out[1], out2[1], rel=1e-9)
+                        # sliced_wasserstein projects onto single-precision directions, so NumPy's promotion rules
+                        # make its working precision depend on the input dtype (uint8 x float32 -> float32):
+                        # its representation clause is held to single precision
+                        where = api.same(out[1], out2[1], rel=1e-5 if spec["fn"] == "sliced_wasserstein" else 1e-9)
                         if where:
                             raise Violation("representation-independent", site, rep_tag(spec) + "~" + rep_tag(sp2),
                                             "equal-valued inputs given as %s and as %s give different results (at %s)"
